@@ -1,13 +1,11 @@
-// Package c02 is the correspondence harness for property C02 (placeholder).
+// Package c02 is the correspondence harness for property C02; the machinery is shared
+// with the other response-merging properties (package merge).
 package c02
 
 import (
-	"errors"
-
 	"verifh/internal/hx"
 	"verifh/internal/lineio"
+	"verifh/merge"
 )
 
-func Run(o *hx.Opts, w *lineio.Writer) error {
-	return errors.New("C02 harness not implemented")
-}
+func Run(o *hx.Opts, w *lineio.Writer) error { return merge.Run(o, w, 2) }
